@@ -82,6 +82,36 @@ def _use_everything(rec, commands):
     import pickle
     from pamqp import exceptions, frame, header
     n = 0
+
+    # a cheap snapshot of the catalogue compared after every step of the
+    # use phase: a change that a later step undoes would escape the second
+    # walk
+    def snap():
+        out = []
+        for k, c in sorted(dict.items(commands.INDEX_MAPPING)):
+            out.append((k, c.__qualname__, tuple(getattr(c, '__slots__', ())),
+                        tuple(getattr(c, 'valid_responses', ())),
+                        getattr(c, 'synchronous', None),
+                        getattr(c, 'index', None),
+                        getattr(c, 'frame_id', None),
+                        getattr(c, 'name', None)))
+        P_ = commands.Basic.Properties
+        out.append(('props', tuple(P_.__slots__), tuple(sorted(
+            getattr(P_, 'flags', {}).items()))))
+        return out
+    before = snap()
+    state = {'reported': False}
+
+    def unchanged(what):
+        if not state['reported']:
+            now = snap()
+            if now != before:
+                state['reported'] = True
+                diff = [x for x in now if x not in before][:2] + \
+                    [x for x in before if x not in now][:2]
+                rec.violation('catalogue-changed-by-use',
+                              'the catalogue changed after %s: %r'
+                              % (what, diff), {'step': what})
     for idx, cls in sorted(commands.INDEX_MAPPING.items()):
         sp = refspec.METHODS.get(idx)
         makes = [lambda: cls()]
@@ -121,6 +151,7 @@ def _use_everything(rec, commands):
                     call(repr, u.value[2])
                 common.lib_unmarshal(m.value[:-2] + b'\xce')
                 n += 3
+        unchanged('ordinary use of %s' % cls.__qualname__)
     # decodes that fail at the k-th argument (payload cut inside the
     # arguments, envelope consistent), for every class with arguments
     import struct
@@ -169,6 +200,8 @@ def _use_everything(rec, commands):
         common.lib_unmarshal(struct.pack('>BHI', 1, 1, len(p_)) + p_ +
                              b'\xce')
         n += 1
+        unchanged('decoding a frame with class id %d method id %d'
+                  % (cid, mid))
     for code, (label, _hard) in sorted(refspec.REPLY_CODES.items()):
         for code2, (label2, _h2) in sorted(refspec.REPLY_CODES.items()):
             for text in (label2 + ' - no queue', label2.replace('-', '_') +
